@@ -12,7 +12,9 @@ Correspondence (coq/secure/SecureCheck.v, harness/cmd/c17): request/response TYP
         (with and without WithKeepState) and reports.Render run for real; every Req/Resp of the clone is compared
         with the model, the original is re-read, and every canary is byte-searched in the clone's JSON and in
         every rendered file;
-  (iii) plugins whose Request()/Response() are such types are registered and the verdict compared with find_secrets.
+  (iii) plugins whose Request()/Response() are such types (generated ones incl. unexported fields, plus hand-declared
+        ones: embedded structs / *structs of unexported types one and two levels deep, untagged / secure / ignore,
+        ordinary unexported fields, named types) are registered and the verdict compared with find_secrets.
 The functional specification (SecureSpec.scrub, Registry.reach) determines the outputs completely, so a
 disagreement is a violation with that input.
 """
@@ -149,6 +151,8 @@ def run(ctx):
             clone_secure_leaves=fw.histogram(min(c["dist"]["secure_leaves"], 30) for c in cases if c["kind"].startswith("clone")),
             render_files=fw.histogram(c["dist"]["files"] for c in cases if c["kind"] == "render"),
             registry_offending_fields=fw.histogram(c["dist"]["offending"] for c in cases if c["kind"].startswith("registry")),
+            registry_static=fw.histogram("%s -> %s" % (c["dist"].get("path") or "no offending field", "accepted" if c["dist"]["registered"] else "refused")
+                                         for c in cases if c["kind"] == "registry-static"),
             registry_registered=fw.histogram(c["dist"]["registered"] for c in cases if c["kind"].startswith("registry")),
             registry_ctors_above_offending=fw.histogram(k for c in cases if c["kind"] == "registry" for k in (c["dist"].get("non_struct_ctors_above") or [])),
         ),
@@ -159,6 +163,9 @@ def run(ctx):
         "ordinary unexported fields and anything below a Go array are outside the property (documented exclusions of clone.Secure); "
         "reflect.StructOf builds exported, non-embedded fields only: unexported fields, embedded structs / *structs of unexported "
         "types (whose promoted fields ARE in scope) and named types are exercised by the hand-declared types of harness/cmd/c17/static.go",
+        "the registry's walk looks at ALL fields of a struct type, exported or not, embedded or not (the field's own name included, "
+        "e.g. an embedded `loginSecure` or a private `keyCache` needs a tag): modelled as is; exercised by generated unexported fields "
+        "(reflect.StructOf with PkgPath) and by the hand-declared types of harness/cmd/c17/reg.go",
         "the registry follows struct fields and pointers only: a secret-looking untagged field below a slice, map, array or interface "
         "is accepted by Register (modelled as is; reported as an observation, see DESIGN C17)",
         "HTML escaping, html/template and the JSON encoders are not modelled: rendered files are byte-searched",
